@@ -167,6 +167,9 @@ pub struct SimConfig {
     pub max_idle_per_host: usize,
     /// None / Some(0) / Some(T)
     pub idle_timeout: Option<u64>,
+    /// length of the time unit T in milliseconds (default 100 s; a sub-second unit exercises
+    /// idle timeouts below one second)
+    pub t_ms: u64,
     pub split_handshake: bool,
     pub strict_is_open: bool,
     pub ev_cancel: bool,
@@ -193,6 +196,7 @@ impl SimConfig {
             continue_after_preemption: true,
             max_idle_per_host: 32,
             idle_timeout: None,
+            t_ms: 1000 * T_SECS,
             split_handshake: false,
             strict_is_open: true,
             ev_cancel: true,
@@ -288,7 +292,7 @@ impl Sim {
         let _ = hooks::take_spawned();
         hooks::freeze_clock();
         let mut pc = PoolConfig::default();
-        pc.idle_timeout = cfg.idle_timeout.map(|t| Duration::from_secs(t * T_SECS));
+        pc.idle_timeout = cfg.idle_timeout.map(|t| Duration::from_millis(t * cfg.t_ms));
         pc.max_idle_per_host = cfg.max_idle_per_host;
         pc.continue_after_preemption = cfg.continue_after_preemption;
         let svc = ConnectionPoolService::new(HTransport, HProtocol, Recorder, pc);
@@ -716,9 +720,9 @@ impl Sim {
                 self.ticks_used += 1;
                 let half = if k == 0 { 1 } else { 4 };
                 self.clock_half_t += half;
-                hooks::advance_clock(Duration::from_secs(T_SECS * half / 2));
+                hooks::advance_clock(Duration::from_millis(self.cfg.t_ms * half / 2));
                 // the same amount of virtual tokio time, so that timers created by pool code fire
-                advance_virtual_time(Duration::from_secs(T_SECS * half / 2));
+                advance_virtual_time(Duration::from_millis(self.cfg.t_ms * half / 2));
             }
         }
         world::with(|w| w.actor = None);
@@ -757,7 +761,7 @@ impl Sim {
     fn available_conn(&self, snap: &hooks::PoolSnapshot, o: u8, _h2: bool) -> Option<usize> {
         let tok = self.token_of(snap, o)?;
         let ts = snap.tokens.iter().find(|t| t.token == tok)?;
-        let t = self.cfg.idle_timeout.filter(|&t| t > 0).map(|t| Duration::from_secs(t * T_SECS));
+        let t = self.cfg.idle_timeout.filter(|&t| t > 0).map(|t| Duration::from_millis(t * self.cfg.t_ms));
         // `pop` takes from the back and discards from the first expired entry downwards; a connection
         // is "available" if some idle entry is open and not older than the timeout.
         for e in ts.idle.iter().rev() {
@@ -782,7 +786,7 @@ impl Sim {
                 // the popped entry: the last open, unexpired entry from the back of the pre-state list
                 if let Some(tok) = self.token_of(pre, o) {
                     if let Some(ts) = pre.tokens.iter().find(|t| t.token == tok) {
-                        let t = self.cfg.idle_timeout.filter(|&t| t > 0).map(|t| Duration::from_secs(t * T_SECS));
+                        let t = self.cfg.idle_timeout.filter(|&t| t > 0).map(|t| Duration::from_millis(t * self.cfg.t_ms));
                         let post_ids: Vec<&str> = post.tokens.iter().find(|t| t.token == tok).map(|t| t.idle.iter().map(|i| i.conn.as_str()).collect()).unwrap_or_default();
                         // entries removed from the back: pre minus post (post is a prefix of pre)
                         let removed = &ts.idle[post_ids.len().min(ts.idle.len())..];
